@@ -87,13 +87,23 @@ impl FileSystem {
             };
 
             // Create parent directories
-            let mut node = Rc::clone(&fs.root);
+            let mut nodes = vec![Rc::clone(&fs.root)];
             for component in components {
                 let name = match component {
                     Component::Normal(name) => name,
-                    Component::RootDir => continue,
-                    _ => return Err(Errno::ENOENT),
+                    Component::RootDir | Component::CurDir => continue,
+                    Component::ParentDir => {
+                        let node = nodes.last().unwrap();
+                        if !matches!(&node.borrow().body, FileBody::Directory { .. }) {
+                            return Err(Errno::ENOTDIR);
+                        }
+                        if nodes.len() > 1 {
+                            nodes.pop();
+                        }
+                        continue;
+                    }
                 };
+                let node = nodes.last().unwrap();
                 let mut node_ref = node.borrow_mut();
                 let children = ensure_dir(&mut node_ref.body);
                 use std::collections::hash_map::Entry::*;
@@ -110,9 +120,10 @@ impl FileSystem {
                     }
                 };
                 drop(node_ref);
-                node = child;
+                nodes.push(child);
             }
 
+            let node = nodes.pop().unwrap();
             let mut parent_ref = node.borrow_mut();
             let children = ensure_dir(&mut parent_ref.body);
             Ok(children.insert(Rc::from(file_name), content))
@@ -412,6 +423,26 @@ mod tests {
             assert_eq!(content, &file);
             assert_eq!(i.next(), None);
         });
+    }
+
+    #[test]
+    fn file_system_save_with_dot_and_dot_dot_in_parent() {
+        let mut fs = FileSystem::default();
+        let _ = fs.save("/dir/sub/file", Rc::default());
+
+        let file_1 = Rc::new(RefCell::new(Inode::new([12])));
+        let old = fs.save("/dir/sub/../new", Rc::clone(&file_1));
+        assert_eq!(old, Ok(None));
+        assert_eq!(fs.get("/dir/new"), Ok(file_1));
+        assert_eq!(fs.get("/dir/sub/new"), Err(Errno::ENOENT));
+
+        let file_2 = Rc::new(RefCell::new(Inode::new([34])));
+        let old = fs.save("./dir/./sub/../../../top", Rc::clone(&file_2));
+        assert_eq!(old, Ok(None));
+        assert_eq!(fs.get("/top"), Ok(file_2));
+
+        let old = fs.save("/dir/sub/file/../new", Rc::default());
+        assert_eq!(old, Err(Errno::ENOTDIR));
     }
 
     #[test]
